@@ -143,7 +143,4 @@ def run(tier):
 
 
 def replay(path):
-    j = json.load(open(path))
-    print(json.dumps(j, indent=1))
-    print('re-run `./check C05` to re-evaluate; the artefact names the block and both headers')
-    return 0
+    return C.replay_by_rerun(PROP, path)
